@@ -37,17 +37,20 @@ ASSUMPTIONS = ["user functions deterministic"]
 
 def registry():
     from contracts import mapspec, misc
-    allc = misc.ALL + mapspec.ALL
+    from contracts import adaptive
+    allc = misc.ALL + mapspec.ALL + adaptive.ALL
     return {**{c.short: c for c in allc}, **{c.name: c for c in allc}}
 
 
 def proof_items():
-    from contracts import misc
+    from contracts import adaptive, misc
     from vf.driver import ProofItem
     # which elements a piece computes: exactly the selected (fixed-mask) indices that are not stored yet
     return [ProofItem(misc.existing_and_missing, gen=misc.em_gen, call=misc.em_call),
             # when a function takes an array whole, all its axes are reduced (and may not be fixed)
-            ProofItem(misc.is_parameter_reduced, gen=misc.ipr_gen)]
+            ProofItem(misc.is_parameter_reduced, gen=misc.ipr_gen),
+            # element-scope functions: one learner per *selected* flat index (not per position)
+            ProofItem(adaptive.split_sequence_learner, gen=adaptive.gen, call=adaptive.call)]
 
 
 # ---- reference notions ------------------------------------------------------------------------------------------
